@@ -986,6 +986,37 @@ func (r *run) adversary() {
 			if len(r.qcPool) > 0 {
 				si.SetQC(r.qcPool[r.rng.Intn(len(r.qcPool))])
 			}
+			// a certificate that reaches a replica BEFORE the block it certifies (the replica missed the proposal and has to fetch the
+			// block to judge the certificate): genuine, or relabelled with a view at/above the replica's own, or below the block's
+			type lack struct {
+				x  *hx.Node
+				qc hotstuff.QuorumCert
+			}
+			var lacks []lack
+			for i := len(r.qcPool) - 1; i >= 0 && i >= len(r.qcPool)-12; i-- {
+				qc := r.qcPool[i]
+				for _, x := range hon {
+					if _, have := x.BC.LocalGet(qc.BlockHash()); !have && qc.Signature() != nil {
+						lacks = append(lacks, lack{x, qc})
+					}
+				}
+			}
+			if len(lacks) > 0 && r.rng.Intn(4) > 0 {
+				l := lacks[r.rng.Intn(len(lacks))]
+				qc := l.qc
+				switch r.rng.Intn(4) {
+				case 0, 1:
+					hv := max(qc.View(), l.x.VS.View())
+					qc = hotstuff.NewQuorumCert(qc.Signature(), hv+hotstuff.View(r.rng.Intn(3)), qc.BlockHash())
+				case 2:
+					if qc.View() > 1 {
+						qc = hotstuff.NewQuorumCert(qc.Signature(), hotstuff.View(1+r.rng.Intn(int(qc.View())-1)), qc.BlockHash())
+					}
+				}
+				si = hotstuff.NewSyncInfoWith(qc)
+				r.logByz("newview", id, []envelope{{from: id, to: l.x.ID, msg: hotstuff.NewViewMsg{ID: id, SyncInfo: si, FromNetwork: true}}})
+				return
+			}
 		}
 		var msgs []envelope
 		for _, n := range subset() {
